@@ -101,6 +101,17 @@ def build_corpus(tier, rng):
         cands.append(("own-name", Item(nm, [Variant("Dust", "unit"), Variant("Inferno", "unit", [], [aci(True, explicit=False), ser("inf")]),
                                             Variant("Rest", "tuple", [Field("String")], [DEFAULT])])))
         cands.append(("own-name", Item(nm, [Variant("Map", "unit"), Variant("PHF", "unit", [], [ser("p")])])))
+    # declared where there is NO prelude at all (#![no_implicit_prelude]): accepted without use_phf, so accepted with it (the generated code
+    # may not rely on a prelude trait being in scope for a method call)
+    for j, vs in enumerate(([Variant("Fast", "unit"), Variant("Slow", "unit", [], [aci(True, explicit=False), ser("s")])],
+                            [Variant("A", "unit", [], [ser("a"), ser("A")]), Variant("B", "unit"), Variant("Off", "unit", [], [DISABLED])])):
+        nip = Item("E", vs, metas=[EM("aci")] if j else [])
+        nip.hostile = ["no_implicit_prelude"]
+        cands.append(("no-prelude", nip))
+    for nm_ in ("c_binders", "Clone", "Some", "Ok"):
+        hs = Item("E", [Variant("Fast", "unit"), Variant("Slow", "unit", [], [aci(True, explicit=False), ser("s")]), Variant("Plain", "unit", [], [ser("p")])])
+        hs.hostile = [nm_]
+        cands.append(("hostile-scope/" + nm_, hs))
     for it in c01.systematic(rng):
         for v in it.variants:
             if not v.has("default"):
